@@ -128,6 +128,17 @@ pub fn run(run: &Run) {
             false
         }
     });
+    {
+        let mut all = many_distinct_then_offender(true);
+        all.extend(pairs_at_block_cuts(false));
+        battery(run, "many_distinct_and_pairs_at_block_cuts", &all, &|s, l| match check(run, s, l) {
+            Ok(()) => true,
+            Err(v) => {
+                run.violate(v);
+                false
+            }
+        });
+    }
     battery(run, "mark_neighbours", &mark_neighbour_strings(0), &|s, l| match check(run, s, l) {
         Ok(()) => true,
         Err(v) => {
